@@ -128,7 +128,7 @@ def gen(tier, seed):
     rng = core.seeded_rng(seed, 'c19')
     n = 8000 if tier == 'quick' else 150000
     for i in range(n):
-        decls = treegen.gen_decls(rng)
+        decls = treegen.gen_decls(rng, funcs=True)
         root = treegen.gen_instances(rng, decls)
         text = '\n'.join(treegen.render_text(root)) + '\n'
         nodes = list(treegen.all_nodes(root))
@@ -152,7 +152,15 @@ def gen(tier, seed):
                 if d.typ in ('int', 'float', 'bool', 'str') and rng.random() < 0.2:
                     pfs.append('%s:%d' % (nd.loc, i2))
         bodies = [[nd.loc, depth] for nd, depth in rng.sample(nodes, min(4, len(nodes)))]
-        yield {'decls': [d.to_json() for d in decls], 'text': text, 'filters': filters, 'pfs': pfs, 'bodies': bodies}
+        # function options print nothing unless they carry a print callback; then one line at the section's depth
+        fpfs = []
+        for nd, depth in nodes:
+            for i2, d in enumerate(nd.decls):
+                if d.typ == 'func' and rng.random() < 0.6:
+                    fpfs.append(['%s:%d' % (nd.loc, i2), nd.loc, i2, d.name, depth])
+        # a third of the cases: the context already has a filter while the text is parsed (sections are created under it); it is removed or replaced afterwards
+        pre = rng.getrandbits(32) | 1 if rng.random() < 0.35 else None
+        yield {'decls': [d.to_json() for d in decls], 'text': text, 'filters': filters, 'pfs': pfs, 'bodies': bodies, 'fpfs': fpfs, 'pre': pre}
 
 
 def eff_of(loc, filters):
@@ -170,7 +178,11 @@ def script(spec):
     decls = [D.from_json(j) for j in spec['decls']]
     lines, sid = schema.emit_schema(decls)
     lines.append('init 0 %d 0' % sid)
+    if spec.get('pre') is not None:
+        lines.append('set_filter 0 6 %d' % spec['pre'])
     lines.append('parse_buf 0 %s' % hx(spec['text']))
+    if spec.get('pre') is not None:
+        lines.append('set_filter 0 -1 0')
     lines.append('dump 0')
     lines.append('note base')
     lines.append('print 0')
@@ -193,6 +205,10 @@ def script(spec):
     for ol in spec['pfs']:
         lines.append('opt_set_print_func %s 1' % ol)
     lines.append('note callbacks')
+    lines.append('print 0')
+    for f in spec.get('fpfs', []):
+        lines.append('opt_set_print_func %s 1' % f[0])
+    lines.append('note funcs')
     lines.append('print 0')
     return '\n'.join(lines)
 
@@ -228,10 +244,12 @@ def judge(spec, events, death):
             bodies.append(unhx(p[0]['out']) if p else None)
         elif p:
             prints[g[0]] = unhx(p[0]['out'])
-    if set(prints) != {'base', 'filtered', 'callbacks'}:
+    if not {'base', 'filtered', 'callbacks'} <= set(prints):
         v.bad('harness:short-log', 'prints missing')
         return v
     filters = {l: m for l, s, m in spec['filters']}
+    if spec.get('pre') is not None:
+        v.notes['filter_present_while_sections_were_created'] = 1
     unset = False
     results = {}
     for which, fl in (('base', {}), ('filtered', filters)):
@@ -300,6 +318,43 @@ def judge(spec, events, death):
                 break
     v.notes['callback_options'] = ncb
     v.nontrivial = unset or any(l != '0' for l in filters) or ncb > 0
+    # (6) function options with a print callback: exactly one more line each, in declaration order, at the depth of their section instance
+    if spec.get('fpfs') and 'funcs' in prints and len(cb_lines) == len(lines):
+        ins = []
+        for oloc, sloc, idx, name, depth in spec['fpfs']:
+            eff = eff_of(sloc, filters)
+            if eff is not None and (eff >> name_bit(name)) & 1:
+                continue            # rejected by the effective filter
+            if sloc == '0':
+                end = len(lines)
+            else:
+                e, g = find_sec(pair, sloc)
+                if e is None:
+                    continue        # the section instance itself is not printed
+                end = g['endline']
+            pos = end
+            for e, g in pair:
+                l = e['loc']
+                par, _, last = l.rpartition(':')
+                if par == sloc and int(last.split('.')[0]) > idx:
+                    pos = min(pos, g['line'])
+            ins.append((pos, idx, '  ' * depth + '<<%s:0>>' % name))
+        ins.sort()
+        want, k = [], 0
+        for i in range(len(cb_lines) + 1):
+            while k < len(ins) and ins[k][0] == i:
+                want.append(ins[k][2])
+                k += 1
+            if i < len(cb_lines):
+                want.append(cb_lines[i])
+        got = prints['funcs'].split('\n')
+        if got and got[-1] == '':
+            got.pop()
+        v.notes['function_option_callbacks'] = len(ins)
+        if got != want:
+            d = next((i for i, (a, b) in enumerate(zip(got, want)) if a != b), min(len(got), len(want)))
+            v.bad('callback:function-option', 'print callbacks on function options %r: line %d is %r, expected %r (one line per option, in declaration order, at the depth of its section)' % (
+                [f[3] for f in spec['fpfs']], d, got[d] if d < len(got) else None, want[d] if d < len(want) else None))
     return v
 
 
